@@ -20,7 +20,7 @@ TDHCP = 4 if THOROUGH else 3   # table sizes for the expensive _dhcp contracts
 DEFAULT = 0o4444
 MAX_OWN_TX = 4      # termination measure: frames a master's update() may transmit on its own behalf
 G = {"g_writes": Const(0), "g_to": Const(0), "g_type": Const(0), "g_h_to": Const(0), "g_h_from": Const(0),
-     "g_h_type": Const(0), "g_h_res": Const(0), "g_h_id": Const(0), "g_msg": Const(b""), "g_to2": Const(0), "g_tlo": Const(0), "g_thi": Const(255)}
+     "g_h_type": Const(0), "g_h_res": Const(0), "g_h_id": Const(0), "g_msg": Const(b""), "g_to2": Const(0), "g_same": Const(True), "g_tlo": Const(0), "g_thi": Const(255)}
 
 
 def mesh_schema(cls="rf24_mesh:RF24Mesh", node_id=None, addr=None, table=None, tmax=TMAX, frame=None, trange=None, do_dhcp=None):
@@ -102,6 +102,11 @@ def abs_write_m(self, write_direct, send_type):
         self.g_msg = bytes(self.frame_buf.message)
     else:
         self.g_to2 = write_direct
+        # a further try must hand over the SAME frame again (seed s66: the master built its address
+        # response once, before the retry loop; the wait for the NETWORK_ACK overwrites frame_buf)
+        self.g_same = (self.g_same and write_direct == self.g_to and send_type == self.g_type and h.to_node == self.g_h_to
+                       and h.from_node == self.g_h_from and h.message_type == self.g_h_type and h.reserved == self.g_h_res
+                       and bytes(self.frame_buf.message) == self.g_msg)
     self.g_writes = self.g_writes + 1
     acky = 65 <= h.message_type and h.message_type <= 191 and (send_type == 0 or send_type == 3)
     havoc_radio_io(self)
@@ -160,7 +165,8 @@ def ens_dhcp(self, old_self, exc):
                and self.g_writes >= 1 and self.g_writes <= MAX_OWN_TX                    # bounded time (the code makes 1 try, 2 when relayed)
                and self.g_h_type == 128 and self.g_h_res == r and self.g_h_to == via
                and self.g_msg == bytes([a % 256, a // 256])
-               and self.g_to == via and self.g_type == ite(via == DEFAULT, 2, 0))
+               and self.g_to == via and self.g_type == ite(via == DEFAULT, 2, 0)
+               and self.g_same)                                                         # a second try repeats exactly this reply
     return not self._do_dhcp and d_inv(d) and (unchanged or granted)
 
 
